@@ -1,9 +1,11 @@
 #!/bin/bash
-# usage: tools/seed_check.sh <property> <seed-dir-name>   -- run ./check <property> against /repo with seeded/<name>/patch.diff
-# applied, undo the change straight afterwards; evidence goes to a scratch directory, never to /verif/evidence
+# usage: tools/seed_check.sh <property> <seed-dir-name>   -- run ./check <property> against a scratch worktree of /repo with
+# seeded/<name>/patch.diff applied (VERIF_REPO), removed afterwards; /repo itself is not touched, evidence goes to a scratch
+# directory, never to /verif/evidence
 cd /verif
-git -C /repo status --short | grep -q . && { echo "/repo working tree is not clean"; exit 3; }
-git -C /repo apply /verif/seeded/$2/patch.diff || exit 3
-VERIF_SCRATCH_EVIDENCE=/tmp/verif-seed-evidence ./check $1 | cut -c1-400; rc=${PIPESTATUS[0]}
-git -C /repo checkout -- .
+wt=$(mktemp -d /tmp/verif-seedwt-XXXXXX); rmdir "$wt"
+git -C /repo worktree add -q "$wt" HEAD || exit 3
+trap 'git -C /repo worktree remove --force "$wt" 2>/dev/null; git -C /repo worktree prune' EXIT
+git -C "$wt" apply /verif/seeded/$2/patch.diff || { echo "patch does not apply to /repo HEAD"; exit 3; }
+VERIF_REPO="$wt" VERIF_SCRATCH_EVIDENCE=/tmp/verif-seed-evidence ./check $1 | cut -c1-400; rc=${PIPESTATUS[0]}
 echo "check exit=$rc"
